@@ -253,7 +253,7 @@ def r10c(ctx):
                                  'TMCG_SecretKey::decrypt accepts a root without checking the padding redundancy', g)
     okq = bool(exits) and all(any(Tb.node(fa)[0] == 'truthy' and Tb.contains(fa, lambda z: z[0] == 'callr' and z[1] == 'tmcg_mpz_qrmn_p') for fa in facts) for n_, facts in exits)
     (ctx.ok if okq else ctx.bad)('R10c', 'R10c:decrypt:square', 'roots are taken only of values that are squares modulo both primes' if okq else
-                                 'decrypt takes square roots without the quadratic-residue test', g, nec=False)
+                                 'decrypt takes square roots of a value that was not tested to be a square modulo both primes (the negated ciphertext m - c decrypts as well)', g)
 
 
 EXPLANATION = ("Static gate and agreement analysis of the Rabin key code: every accepting exit of TMCG_PublicKey::check requires the "
